@@ -38,15 +38,78 @@ import (
 // The error value handed over is the positioned error (errors.DocumentError) the stream extracted with errors.As;
 // alternately the pristine value and the value that has been rendered before (a caller that logs the error first).
 //
-// Reading: an error that reaches the caller WRAPPED (AddType: "load added type: %w") is not unwrapped by the facade,
-// which then reports the caller's file and the wrapped text as a generic message; the unchanged tree does so and
-// the facade's signature says nothing else, so for the wrapper only totality is demanded and that its Message()
-// carries the positioned error's text.
+// The RESULT clause (property C07 "every non-nil error ... exposing code, message and a position that lies inside the
+// source it refers to", read on what the facade hands to the caller). It is demanded of EVERY result of
+// kit.ConvertError - for the positioned error itself, for an error that reaches the caller WRAPPED (AddType: "load
+// added type: %w", "generate example for Regex type: %w") and for errors that are no library errors at all:
+//
+//	P1  Filename() names a source: a file of the run or the file the caller handed over. A result naming no such
+//	    file refers to no source.
+//	P2  Position() lies inside the text of that file (when several files carry the name: inside at least one of
+//	    them; position 0 of an empty text - "no position" - is tolerated).
+//	P3  the result tells which error it is: its ErrCode() / Message() are those of the innermost positioned library
+//	    error of the chain, or it is the generic conversion (code ErrGeneric) whose Message() carries that error's
+//	    full text. (Calibrated on the unchanged tree: the facade does not unwrap, a wrapper comes back as the generic
+//	    error of the caller's file, position 0.)
+//	P4  a result that presents the innermost error (its code and message) describes the place of that error: the
+//	    position AND the file of it. The innermost error's position paired with another file's name points nowhere.
+//
+// A type the library synthesises a source for (a regex type `/P/` becomes the schema text `"<example>" // {regex:
+// "<P>"}` in a file that carries the TYPE'S NAME) has one source the user knows: the regex text. The run therefore
+// lists the regex text under the type's name, too (a second runFile with the same content).
 
 type runFile struct {
 	expr    string // how to write the content down when replaying: "the root schema text", "the first 9 bytes of the document text" ...
 	name    string
 	content []byte
+}
+
+// resultComplaint: the RESULT clause P1 - P4 (see above) for one result `fo` of kit.ConvertError(caller, err); run =
+// the files of the run; o = the observation of err (o.positioned: the innermost positioned error of its chain).
+func resultComplaint(fo facadeObs, caller runFile, run []runFile, o observation) string {
+	if fo.panics != "" {
+		return fo.panics
+	}
+	// P1 / P2
+	cands, inside := 0, false
+	var sizes []string
+	files := run
+	callerIsRunFile := false
+	for _, f := range run {
+		callerIsRunFile = callerIsRunFile || (f.name == caller.name && string(f.content) == string(caller.content))
+	}
+	if !callerIsRunFile {
+		files = append([]runFile{caller}, run...)
+	}
+	for _, f := range files {
+		if f.name != fo.file {
+			continue
+		}
+		cands++
+		sizes = append(sizes, fmt.Sprintf("%d", len(f.content)))
+		if fo.pos < len(f.content) || (fo.pos == 0 && len(f.content) == 0) {
+			inside = true
+		}
+	}
+	if cands == 0 {
+		return fmt.Sprintf("the result names file %q, which is neither a file of the run nor the caller's file: it refers to no source", fo.file)
+	}
+	if !inside {
+		return fmt.Sprintf("the result's Position() = %d lies outside the source it refers to: file %q (ErrCode() = %d, Message() = %q) has %s bytes", fo.pos, fo.file, fo.code, fo.message, strings.Join(sizes, " / "))
+	}
+	if !o.positioned {
+		return ""
+	}
+	// P3 / P4
+	presents := fo.code == o.code && fo.message == o.message
+	generic := fo.code == int(jerr.ErrGeneric) && strings.Contains(fo.message, o.inner)
+	switch {
+	case !presents && !generic:
+		return fmt.Sprintf("the result (ErrCode() = %d, Message() = %q) is neither the innermost library error (code %d, message %q) nor the generic conversion carrying its text", fo.code, fo.message, o.code, o.message)
+	case presents && (fo.pos != o.pos || fo.file != o.file):
+		return fmt.Sprintf("the result presents the error code %d %q of file %q position %d, but as file %q position %d", o.code, o.message, o.file, o.pos, fo.file, fo.pos)
+	}
+	return ""
 }
 
 func (f runFile) call() string {
@@ -110,10 +173,12 @@ func facadeComplaint(rep *vh.Report, o observation, own runFile, others []runFil
 		return "", ""
 	}
 	if !o.positioned {
-		// a bare error: the facade can only attribute it to the caller's file; totality
-		for _, f := range append([]runFile{own}, others...) {
-			if fo := viaFacade(f, o.err); fo.panics != "" {
-				return fo.panics, f.call()
+		// a bare error: the facade can only attribute it to the caller's file; totality and the RESULT clause
+		run := append([]runFile{own}, others...)
+		for _, f := range run {
+			rep.Stat("facade_results_checked")
+			if c := resultComplaint(viaFacade(f, o.err), f, run, o); c != "" {
+				return c, f.call() + " with err = the returned error"
 			}
 		}
 		rep.Stat("facade_bare_errors")
@@ -124,6 +189,7 @@ func facadeComplaint(rep *vh.Report, o observation, own runFile, others []runFil
 	} else {
 		rep.Stat("facade_error_file_is_named")
 	}
+	run := append([]runFile{own}, others...)
 	for k, f := range callerFiles(own, others, o.pos) {
 		e, which := o.de, "err = the positioned error (errors.As), not rendered before"
 		if k%2 == 1 {
@@ -153,10 +219,13 @@ func facadeComplaint(rep *vh.Report, o observation, own runFile, others []runFil
 				rep.Stat("facade_caller_file_other_name")
 			}
 		}
+		rep.Stat("facade_results_checked")
 		c := ""
 		switch {
 		case fo.panics != "":
 			c = fo.panics
+		case !o.synthetic && resultComplaint(fo, f, run, o) != "":
+			c = resultComplaint(fo, f, run, o)
 		case fo.file != o.file:
 			c = fmt.Sprintf("Filename() = %q, the error's own Filename() = %q", fo.file, o.file)
 		case fo.pos != o.pos:
@@ -183,13 +252,11 @@ func facadeComplaint(rep *vh.Report, o observation, own runFile, others []runFil
 	// the wrapper, when the library handed the positioned error out wrapped
 	if _, direct := o.err.(jerr.DocumentError); !direct {
 		rep.Stat("facade_wrapped_errors")
-		for _, f := range append([]runFile{own}, others...) {
-			fo := viaFacade(f, o.err)
-			if fo.panics != "" {
-				return fo.panics, f.call() + " with err = the returned (wrapping) error"
-			}
-			if !strings.Contains(fo.message, o.inner) {
-				return fmt.Sprintf("Message() = %q lacks the text of the positioned error %q", fo.message, o.inner), f.call() + " with err = the returned (wrapping) error"
+		for _, f := range callerFiles(own, others, o.pos) {
+			rep.Stat("facade_results_checked")
+			rep.Stat("facade_wrapper_conversions")
+			if c := resultComplaint(viaFacade(f, o.err), f, run, o); c != "" {
+				return c, f.call() + " with err = the returned (wrapping) error"
 			}
 		}
 	}
@@ -203,5 +270,5 @@ func reportFacade(rep *vh.Report, in string, o observation, own runFile, others 
 		return
 	}
 	rep.AddDiff(vh.Diff{Component: "C17-facade", Input: in + " -> err; " + call, Impl: c + " | the error itself: " + o.String(),
-		Model: fmt.Sprintf("the facade's result describes the place the error describes: file %q, position %d, the same code / message / user type, the same rendering (line, source line, caret of that file), no panic - whatever file the caller holds", o.file, o.pos)})
+		Model: fmt.Sprintf("the facade's result names a source of the run and a position inside it; for the positioned error it describes the place the error describes: file %q, position %d, the same code / message / user type, the same rendering (line, source line, caret of that file); for a wrapper or a foreign error it is that error's code / message / file / position or the generic error of the caller's file; no panic - whatever file the caller holds", o.file, o.pos)})
 }
